@@ -488,6 +488,7 @@ class RunLengthArray(NPSIndexable, np.lib.mixins.NDArrayOperatorsMixin):
         return self.__class__(np.append(all_events, self._events[-1]), sum_values)
 
     def _get_position(self, idx):
+        idx = np.asanyarray(idx, dtype=int)
         idx = np.where(idx < 0, len(self)+idx, idx)
         return self._values[np.searchsorted(self._events, idx, side="right")-1]
 
